@@ -35,7 +35,7 @@ def obligations(tier):
             progs=[SMTPD],
             lib=["ideal_substdio.c"],
             sysrename=["_exit"],
-            grid=[{"N": n} for n in ([14] if quick else [16, 18, 20])],
+            grid=[{"N": n} for n in ([8, 14] if quick else [8, 16, 18, 20])],   # N=8: a cheap point that still decides when a rewritten decoder makes the large one explode
             unwind=lambda p: {"blast": p["N"] + 2, "substdio_put": 64},
             unwind_default=lambda p: p["N"] + 3,
             timeout=900 if quick else 3000,
